@@ -36,6 +36,7 @@ import (
 
 	"rivaas.dev/middleware/compression"
 	"rivaas.dev/middleware/recovery"
+	"rivaas.dev/middleware/timeout"
 	"rivaas.dev/router"
 	"verif/harness/hx"
 )
@@ -945,6 +946,11 @@ func wrapMW(kind string) router.HandlerFunc {
 			c.Response = bareWriter{orig}
 		} else if strings.HasSuffix(kind, "recorder") {
 			c.Response = &recorderWriter{ResponseWriter: orig}
+		} else if strings.HasSuffix(kind, "realtimeout") {
+			// the repository's own timeout middleware (a generous deadline that never expires): it installs its writer
+			// and runs the rest of the chain in its own goroutine
+			timeout.New(timeout.WithDuration(time.Minute), timeout.WithoutLogging())(c)
+			return
 		} else if strings.HasSuffix(kind, "lazyheader") {
 			c.Response = &lazyHeaderWriter{ResponseWriter: orig, private: orig.Header().Clone()}
 		} else if i := strings.Index(kind, "refuse-"); i >= 0 {
